@@ -11,6 +11,8 @@ from concurrent.futures import ThreadPoolExecutor
 VERIF = os.path.dirname(os.path.dirname(os.path.abspath(__file__)))
 REPO = os.environ.get("CMR_REPO", "/repo")
 BUILD = os.path.join(VERIF, ".build")
+if REPO != "/repo":
+    BUILD = BUILD + "-" + hashlib.sha256(REPO.encode()).hexdigest()[:8]     # scratch trees get their own cache (eviction is per cache)
 GUARD = "DISCOPT_CMR_VERIF"
 
 COMMON = ["-std=gnu99", "-fPIC", "-w", "-D" + GUARD]
